@@ -94,6 +94,70 @@ theorem typeInfer_complete {ctx : Ctx} (hc : ctx.Clean) {vt svt : String → Ty}
         rw [Skel.substI_substI (fun i => ((linv.2 i).substI_eq w.sol).symm ▸ by simp)]
         exact h1
 
+-- ---------------------------------------------------------------- the result is itself a completion
+
+/-- the filled skeleton after the final substitution is a completion of the input skeleton -/
+theorem Pre.compl {ctx : Ctx} {ic isc : List (String × Ty)} (τ : List Ty) {t t' : Skel} (h : Pre ctx ic isc t t') :
+    Compl ctx (fun n => ((ic.lookup n).getD default).substI τ) (fun n => ((isc.lookup n).getD default).substI τ)
+      t (t'.substI τ) := by
+  induction h with
+  | varAnn n A hA =>
+    simp only [Skel.substI, Option.map_some, Ty.substI_of_noInt τ A hA]
+    exact .varAnn n A
+  | varDecl n T hd hT =>
+    simp only [Skel.substI, Option.map_some, Ty.substI_of_noInt τ T hT]
+    exact .varDecl n T hd
+  | varInc n T hd hi =>
+    simp only [Skel.substI, Option.map_some]
+    have := Compl.varFree (ctx := ctx) (vt := fun n => ((ic.lookup n).getD default).substI τ)
+      (svt := fun n => ((isc.lookup n).getD default).substI τ) n hd
+    simpa [hi] using this
+  | svarAnn n A hA =>
+    simp only [Skel.substI, Option.map_some, Ty.substI_of_noInt τ A hA]
+    exact .svarAnn n A
+  | svarDecl n T hd hT =>
+    simp only [Skel.substI, Option.map_some, Ty.substI_of_noInt τ T hT]
+    exact .svarDecl n T hd
+  | svarInc n T hd hi =>
+    simp only [Skel.substI, Option.map_some]
+    have := Compl.svarFree (ctx := ctx) (vt := fun n => ((ic.lookup n).getD default).substI τ)
+      (svt := fun n => ((isc.lookup n).getD default).substI τ) n hd
+    simpa [hi] using this
+  | constAnn n A hA =>
+    simp only [Skel.substI, Option.map_some, Ty.substI_of_noInt τ A hA]
+    exact .constAnn n A
+  | constSig n S m hs hst =>
+    simp only [Skel.substI, Option.map_some, inst_substI m τ S hst]
+    exact .constSig n S _ hs
+  | constDef n D m hs hd hD =>
+    simp only [Skel.substI, Option.map_some, instS_substI m τ D hD]
+    exact .constDef n D _ hs hd
+  | comb _ _ ih1 ih2 => exact .comb ih1 ih2
+  | absAnn x A hA _ ih =>
+    simp only [Skel.substI, Option.map_some, Ty.substI_of_noInt τ A hA]
+    exact .absAnn x A ih
+  | absNew x T _ ih => exact .absNew x _ ih
+  | bound i => exact .bound i
+
+/-- the result of `type_infer` is a completion of the skeleton (after the `defs` step) -/
+theorem typeInfer_result_compl {ctx : Ctx} {fuel : Nat} {forbid : Bool} {t t0 r : Skel}
+    (h0 : applyDefs ctx t = .ok t0) (h : typeInfer ctx fuel forbid t = .ok r) : ∃ vt svt, Compl ctx vt svt t0 r := by
+  simp only [typeInfer, h0] at h
+  cases hi : infer ctx fuel t0 [] St.empty with
+  | error e => simp [hi] at h
+  | ok res =>
+    obtain ⟨t', T, st⟩ := res
+    simp only [hi, finish] at h
+    have post := infer_spec ctx fuel t0 [] St.empty t' T st hi inv_empty cb_empty (by intro B hB; cases hB)
+    split at h
+    · cases h
+    · cases hl : finalLoop (unspecOf st.uf) fuel st.uf with
+      | error e => simp [hl] at h
+      | ok τ =>
+        simp only [hl, Except.ok.injEq] at h
+        subst h
+        exact ⟨_, _, post.pre.compl τ⟩
+
 -- ---------------------------------------------------------------- erasures are completions
 
 theorem Erases.compl {ctx : Ctx} {t u : Skel} (vt svt : String → Ty) (h : Erases ctx t u) : Compl ctx vt svt t u := by
